@@ -157,7 +157,7 @@ class RandomReader(DataChunkReader):
         self._chunk_info = generator.copy_chunk_info()
 
         self._num_records = num_randoms
-        self.chunksize = chunksize or CHUNKSIZE
+        self.chunksize = int(chunksize or CHUNKSIZE)  # not e.g. np.uint8: counters wrap
 
         self._reset_iter_state()
 
@@ -252,7 +252,7 @@ class DataReader(DataChunkReader):
         )
 
         self.degrees = degrees
-        self.chunksize = chunksize or CHUNKSIZE
+        self.chunksize = int(chunksize or CHUNKSIZE)  # not e.g. np.uint8: counters wrap
 
         self._reset_iter_state()
 
